@@ -139,7 +139,11 @@ impl Rec {
         if let Some(f) = &self.marker_file {
             // fixed-width record at offset 0: cheap enough to do before every case
             let mut line = format!("{} {}", case, what.replace('\n', " "));
-            line.truncate(250);
+            let mut cut = line.len().min(250);
+            while !line.is_char_boundary(cut) {
+                cut -= 1;
+            }
+            line.truncate(cut);
             while line.len() < 255 {
                 line.push(' ');
             }
